@@ -121,7 +121,15 @@ def genuine_chain(rng, depth=None, tweaks=True):
     dev_msg = bytes(rng.getrandbits(8) for _ in range(rng.choice([0, 1, 10, 40]))) + pub65(dev)
     els.append({"name": "device", "message": dev_msg.hex(), "signature": sign(root, dev_msg, rng).hex(),
                 "signed_by": "root"})
-    att_msg = b"\xff" + pub65(att)
+    # the attestation message is one header byte followed by the key, in any encoding the library reads;
+    # now and then a longer header, after which `msg[1:]` is no key at all
+    r = rng.random()
+    if r < 0.7:
+        att_msg = b"\xff" + pub65(att)
+    elif r < 0.85:
+        att_msg = b"\xff" + att.get_verifying_key().to_string("compressed")
+    else:
+        att_msg = bytes(rng.getrandbits(8) for _ in range(rng.choice([2, 3, 9]))) + pub65(att)
     els.append({"name": "attestation", "message": att_msg.hex(), "signature": sign(dev, att_msg, rng).hex(),
                 "signed_by": "device"})
     for name in ("ui", "signer"):
